@@ -109,11 +109,12 @@ type OracleC13 struct {
 	prePending []sdk.Coins
 	// tainted positions: a value-changing event (slash, take-rate deduction) happened while
 	// they had accrued but unclaimed rewards; their next settlement is C12's business
-	tainted map[entKey]bool
+	tainted  map[entKey]bool
+	taintVal map[int]bool
 }
 
 func NewOracleC13() *OracleC13 {
-	return &OracleC13{ent: map[entKey]map[string]*big.Rat{}, slack: map[entKey]map[string]*big.Rat{}, acc: map[int][]accrual{}, tainted: map[entKey]bool{}}
+	return &OracleC13{ent: map[entKey]map[string]*big.Rat{}, slack: map[entKey]map[string]*big.Rat{}, acc: map[int][]accrual{}, tainted: map[entKey]bool{}, taintVal: map[int]bool{}}
 }
 
 func (*OracleC13) Name() string { return "C13" }
@@ -182,6 +183,15 @@ func (o *OracleC13) accrue(x *Exec, s *Snap, v int, coins sdk.Coins) {
 func (o *OracleC13) deposit(x *Exec, s *Snap, v int) {
 	accs := o.acc[v]
 	delete(o.acc, v)
+	if o.taintVal[v] {
+		delete(o.taintVal, v)
+		for _, d := range s.Dels {
+			if d.V == v {
+				o.tainted[entKey{d.D, d.V, d.Denom}] = true
+			}
+		}
+		return
+	}
 	if len(accs) == 0 {
 		return
 	}
@@ -255,8 +265,19 @@ func (o *OracleC13) deposit(x *Exec, s *Snap, v int) {
 
 // taint: a value-changing event hit while rewards were accrued but unclaimed (the
 // property quantifies over histories without such events; those are C12's).
-func (o *OracleC13) taint(x *Exec) {
+func (o *OracleC13) taint(x *Exec, s *Snap, pending []sdk.Coins) {
 	n := 0
+	// every existing position may hold index deltas the reference no longer tracks
+	for _, d := range s.Dels {
+		o.tainted[entKey{d.D, d.V, d.Denom}] = true
+	}
+	// rewards still pending in x/distribution will be deposited later: whoever is staked on
+	// that validator then is not judged either
+	for v, c := range pending {
+		if !c.IsZero() {
+			o.taintVal[v] = true
+		}
+	}
 	for k := range o.ent {
 		o.tainted[k] = true
 		n++
@@ -284,19 +305,19 @@ func (o *OracleC13) After(x *Exec, op *Op, res *Res) {
 	w := x.W
 	now := pendingRewards(w, x.Ctx)
 	for _, dn := range post.AssetOrder {
-		if degenerateAsset(post, dn) || degenerateAsset(pre, dn) {
+		if degenerateAsset(post, dn) || degenerateAsset(pre, dn) || orphanedValidator(post, dn) || orphanedValidator(pre, dn) {
 			// Listed finding F-C04a: an asset with staked total but no validator shares (100% slash
 			// of every holder) is treated by the module as fully staked on EVERY validator and
 			// absorbs a share of every validator's rewards. Entitlements are not judged there.
 			x.KnownFinding("F-C04a")
 			x.Label("excluded:c13-ownerless-value-state")
-			o.taint(x)
+			o.taint(x, post, now)
 			return
 		}
 	}
 	if (op.K == KSlash || op.K == KSlashHook) && x.L.LastSlashFrac != nil {
 		checkCallbackClaimsIdempotent(x, "C13", op)
-		o.taint(x)
+		o.taint(x, post, now)
 		return
 	}
 	if op.K == KBlock {
@@ -305,7 +326,7 @@ func (o *OracleC13) After(x *Exec, op *Op, res *Res) {
 		}
 		for _, dn := range pre.AssetOrder {
 			if pa, ok := post.Assets[dn]; ok && !pa.TotalTokens.Equal(pre.Assets[dn].TotalTokens) {
-				o.taint(x) // take-rate deduction changed token values
+				o.taint(x, post, now) // take-rate deduction changed token values
 				break
 			}
 		}
